@@ -110,6 +110,34 @@ CLAIMED = {
         note="Trusted: TLC, pools.py byte-order table, encoding/json token scanner.",
         technique="TLA+ spec (Codec.tla KeyOrder) model-checked with TLC; behaviours replayed on the real Marshal",
         design="6/C19"),
+    "C04": dict(
+        text="GoTypes.tla models Go types, values and what encoding/json emits for them (dominant-field rule on JSON names, "
+             "omitempty/omitzero/nil rules); Infer.tla gives the code-shaped forType walk (InferCode) and the documented result "
+             "(InferSpec); TLC checks Valid(InferCode(T), Enc(T, v)) for every type and value of the universe. The harness "
+             "generates and compiles Go source for every enumerated type, builds the values, and checks on the real code that "
+             "Validate(decode(json.Marshal(v))) passes against Resolve(ForType(T)); the encoding model itself is compared with "
+             "the real json.Marshal (mismatch = exit 2, never a violation).",
+        note="Trusted: TLC, generated Go source, encoding/json. Known findings (KNOWN-FINDING lines): *big.Int schema is string; "
+             "JSON name claimed by two fields / tagged embedded field.",
+        technique="TLA+ spec (GoTypes/Infer/Eval) model-checked with TLC; generated Go types and values replayed on the real For/Marshal/Validate",
+        design="6/C04"),
+    "C09": dict(
+        text="Same types and values as C04; for every valid encoding the harness derives all single-point mutations and checks the "
+             "implication 'inferred schema accepts the document => Decoder(DisallowUnknownFields) decodes it into T' on the real "
+             "code; TLC contributes the type/value universe and the soundness of the inference rules (Sound, SpecEq).",
+        note="Trusted: as C04. The mutation generator lives in the harness (documented deviation from 'mutations in the spec'): "
+             "the oracle is the real decoder, not a model of it.",
+        technique="TLA+-enumerated types/values (MC_Infer) with TLC; mutation-implication check on the real Validate and json.Decoder",
+        design="6/C09"),
+    "C16": dict(
+        text="TLC checks InferCode(T) = InferSpec(T) (the forType walk yields exactly encoding/json's field set, names, order, "
+             "required rule, null for pointers); the harness calls ForType twice per generated type and checks byte-equal results, "
+             "no shared *Schema between results, Resolve accepts, and the marshaled schema equals InferSpec(T) rendered as a Schema "
+             "literal.",
+        note="Trusted: as C04. TypeSchemas / IgnoreInvalidTypes / recursive types are exercised by the thorough tier's option "
+             "configurations only partially (see DESIGN.md section 8).",
+        technique="TLA+ spec (Infer.tla InferCode vs InferSpec) model-checked with TLC; generated Go types replayed on the real ForType",
+        design="6/C16"),
     "C10": dict(
         text="MC_Total.tla enumerates the malformed inputs of every entry point and predicts where the documentation fixes it "
              "whether the call must fail: JSON token sequences with a TLA+ recogniser of the JSON grammar, keyword x ill-typed "
